@@ -2355,6 +2355,19 @@ def emit_fn_text(unit, rel, path, fn_id, text, line0, end_line, dlines, tmpl_whe
                     _m, mp = _find_anchor_fuzzy(body, bmask, sec[1][0], sec[1][1])
                 except AnchorLost:
                     continue
+                # a place that another aid of the same function names literally is that aid's place, not this one's
+                taken = False
+                for other in sections:
+                    if other is not sec and other[0] in ('before', 'after'):
+                        try:
+                            mo = _find_anchor(body, bmask, other[1][0], other[1][1])
+                        except AnchorLost:
+                            continue
+                        if mo.start() < _m.end() and _m.start() < mo.end():
+                            taken = True
+                            break
+                if taken:
+                    continue
                 # the hint that hangs on this anchor speaks about the anchor's own variables
                 for a_, b_ in mp.items():
                     sec[2] = [re.sub(r'(?<![\w.])%s\b' % re.escape(a_), b_, l) for l in sec[2]]
